@@ -2,7 +2,8 @@
    of alloc.h switched on for the whole request.  For every operation it prints the change in the number of live blocks
    that were allocated (by the library, uthash or this executor on the library's behalf) since the request began, and at
    the end the number still live after every slot has been released.  The heap model (lean/Driver/Fam/Valheap.lean)
-   predicts the same numbers, which ties its malloc/free protocol to the C call by call.
+   predicts the same numbers, which ties its malloc/free protocol to the C call by call.  Each number is followed by a summary
+   of the CONTENTS of the string blocks and an ownership check of all live blocks (see heap_summary below).
    Temporary blocks of the executor (decoded keys, key arrays, dumps) are released within the operation that made them, so
    they do not show. */
 #include "x_val_ops.h"
@@ -11,11 +12,93 @@
 #error "family valheap needs the wrapped allocators (do not set no_wrap)"
 #endif
 
+/* ---- the dump hook: what the live blocks HOLD ------------------------------------------------------------------------
+   After every operation the executor walks the internal structures (struct value_u / entry_s / cif_map_s / cif_packet_s;
+   value.c is compiled into this executor) from the slots: every block it reaches must be a live block of the tracker and
+   must be reached exactly once, and the blocks reached must be ALL the live blocks (`!own` otherwise: a block nobody owns,
+   a block owned twice, or a pointer to something that is not a live block).  The string blocks — texts, digit strings
+   (as digit values), su digit strings, normalised keys, original keys (once when the two are one block) — are summarised
+   as their number and the sum (mod 2^64) of the FNV-1a hashes of their contents; the heap model computes the same summary
+   from its `str` cells.  The walk allocates nothing. */
+static unsigned char seen_blk[MAXLIVE];
+static unsigned max_buckets;      /* largest uthash bucket array met during the request (32 = never expanded) */
+typedef struct { long blocks, strs; unsigned long long sum; int bad; } hw_tp;
+
+static void hw_block(hw_tp *w, void *p) {
+    int i;
+    if (p == NULL) { w->bad = 1; return; }
+    for (i = 0; i < nlive; i++) if (live_ptr[i] == p) {
+        if (seen_blk[i]) w->bad = 1;
+        seen_blk[i] = 1;
+        w->blocks++;
+        return;
+    }
+    w->bad = 1;
+}
+#define FNV_OFF 14695981039346656037ULL
+#define FNV_PRIME 1099511628211ULL
+static void hw_ustr(hw_tp *w, const UChar *t) {
+    unsigned long long h = FNV_OFF;
+    hw_block(w, (void *) t);
+    if (!t) return;
+    for (; *t; t++) { h ^= (unsigned long long) *t; h *= FNV_PRIME; }
+    w->strs++; w->sum += h;
+}
+static void hw_digits(hw_tp *w, const char *t) {
+    unsigned long long h = FNV_OFF;
+    hw_block(w, (void *) t);
+    if (!t) return;
+    for (; *t; t++) { h ^= (unsigned long long) (unsigned char) (*t - '0'); h *= FNV_PRIME; }
+    w->strs++; w->sum += h;
+}
+static void hw_fields(hw_tp *w, cif_value_tp *v);
+static void hw_map(hw_tp *w, cif_map_t *m) {
+    struct entry_s *e;
+    if (m->head == NULL) return;
+    hw_block(w, m->head->hh.tbl);
+    if (m->head->hh.tbl) { hw_block(w, m->head->hh.tbl->buckets); if (m->head->hh.tbl->num_buckets > max_buckets) max_buckets = m->head->hh.tbl->num_buckets; }
+    for (e = m->head; e != NULL; e = (struct entry_s *) e->hh.next) {
+        hw_block(w, e);
+        hw_ustr(w, e->key);
+        if (e->key_orig != e->key) hw_ustr(w, e->key_orig);
+        hw_fields(w, &e->as_value);
+    }
+}
+static void hw_fields(hw_tp *w, cif_value_tp *v) {
+    size_t i;
+    switch (v->kind) {
+    case CIF_CHAR_KIND: hw_ustr(w, v->as_char.text); break;
+    case CIF_NUMB_KIND:
+        hw_ustr(w, v->as_numb.text);
+        hw_digits(w, v->as_numb.digits);
+        if (v->as_numb.su_digits) hw_digits(w, v->as_numb.su_digits);
+        break;
+    case CIF_LIST_KIND:
+        if (v->as_list.elements) {
+            hw_block(w, v->as_list.elements);
+            for (i = 0; i < v->as_list.size; i++) { hw_block(w, v->as_list.elements[i]); if (v->as_list.elements[i]) hw_fields(w, v->as_list.elements[i]); }
+        } else if (v->as_list.size) w->bad = 1;
+        break;
+    case CIF_TABLE_KIND: hw_map(w, &v->as_table.map); break;
+    default: break;
+    }
+}
+static void heap_summary(void) {
+    hw_tp w = { 0, 0, 0, 0 };
+    int k;
+    memset(seen_blk, 0, sizeof(seen_blk));
+    for (k = 0; k < NV; k++) if (vals[k]) { hw_block(&w, vals[k]); hw_fields(&w, vals[k]); }
+    for (k = 0; k < NP; k++) if (pkts[k]) { hw_block(&w, pkts[k]); hw_map(&w, &pkts[k]->map); }
+    if (w.blocks != nlive) w.bad = 1;
+    printf(":%ld:%016llx%s", w.strs, w.sum, w.bad ? "!own" : "");
+}
+
 static void handle(int argc, char **argv) {
     int i = 1, k, first = 1, sink;
     FILE *nul = fopen("/dev/null", "w");
     FILE *saved = stdout;
     (void) sink;
+    max_buckets = 0;
     verif_arm(0, 0);
     ARM();
     printf("vh");
@@ -31,14 +114,14 @@ static void handle(int argc, char **argv) {
             one_op(j - i, argv + i);
             fflush(stdout);
             stdout = saved;
-            if (nlive >= MAXLIVE) printf(" overflow"); else printf(" %d", nlive - before);
+            if (nlive >= MAXLIVE) printf(" overflow"); else { printf(" %d", nlive - before); heap_summary(); }
         }
         i = j + 1;
     }
     (void) first;
     for (k = 0; k < NV; k++) { if (vals[k]) cif_value_free(vals[k]); vals[k] = NULL; }
     for (k = 0; k < NP; k++) { if (pkts[k]) cif_packet_free(pkts[k]); pkts[k] = NULL; }
-    printf(" # end=%d", nlive);
+    printf(" # end=%d b=%u", nlive, max_buckets);
     DISARM();
     fclose(nul);
 }
